@@ -6,8 +6,10 @@ Correspondence against the Lean model `PgFdr.C19` (driver ops "header", "annotat
   descriptions with brackets and the WORDS OS / GN / PE / OX / SV, optional gene field — or from a
   malformed stream: missing / repeated / leading keys, double spaces, 0-3 bars in the identifier,
   non-integer PE) through the real `parse_*` functions of protein_annotation.py, exactly the calls
-  `read_fasta_proteins` makes, for each identifier rule.  This is where the character-level
-  `str.split(" OS=")` reading of the code is compared with the word-level reading of the model.
+  `read_fasta_proteins` makes, for each identifier rule.  The driver op "header" executes the
+  CHARACTER-level model `annotateChar` (a literal mirror of `str.split(" OS=")[1].split(" GN=")[0]`
+  etc.); that it equals the word-level model on every string is proved (`char_level_eq_token_level`),
+  the word-level functions stay reachable as op "header_token".
 * kind "fasta": 1-2 generated FASTA files (repeated identifiers with different content, records
   without gene, multi-line sequences, trailing blanks, occasional bare ">" lines) through the real
   `get_protein_annotations(files, contains_decoys, gene_level, use_uniprot_id)` — every identifier
